@@ -37,7 +37,9 @@ POOL = ["a", "b", "c", "notepad", "nota", "android", "orange", "or_x", "allx", "
         "and1", "ofx", "anyx", "all_of", "n", "no", "nott", "sel1", "sel2", "selection", "filter",
         "filter_main", "_a", "not-admin", "not-", "and-x", "or-1", "-admin", "-", "all-of-x", "1-of", "them-", "of-them",
         # names outside the identifier alphabet: only selectors can refer to them
-        "sel_v1.0", "sel svc", "sel+x", "sele\u0301ction", "filter.exe", "a.b", "sel\nx", "a\tb"]
+        "sel_v1.0", "sel svc", "sel+x", "sele\u0301ction", "filter.exe", "a.b", "sel\nx", "a\tb",
+        # names that are keys of other parts of the specification
+        "rules", "timespan", "type", "filter_rules", "logsource", "detection", "fields", "title"]
 KEYWORD_PREFIXES = ("not", "and", "or", "all", "any", "of", "them", "1")
 PATTERNS = ["them", "*", "sel*", "*x", "a*", "*1", "s*1", "_*", "_p*", "*_*", "filter*", "n*",
             "not*", "or*", "x*", "sel_*", "a*d"]
